@@ -16,10 +16,10 @@ import time
 from .. import coqterm as T
 from .. import c06drv as D
 from .. import c06oracle as O
-from ..c06gen import Gen, COMMAND_NAMES, ADVERSARIAL_MESSAGES, SIEVE_LINES
+from ..c06gen import Gen, COMMAND_NAMES, ADVERSARIAL_MESSAGES, SIEVE_LINES, BACKTRACK_LINES
 
 HEADER = ('From PV Require Import Base.Prelude Cmd.CLex Cmd.Parser Cmd.Utf7Ok Cmd.Grammar '
-          'Cmd.Commands Cmd.Check.\n')
+          'Cmd.Commands Cmd.Check Cmd.Framing.\n')
 
 MAX_APPEND = 1000000000     # IMAPConfig default max_append_len
 
@@ -246,7 +246,12 @@ def section_parse(ctx) -> None:
     inputs += [('sweep', ln) for ln in sweep_lines(ctx.quick)]
     g = Gen(ctx.rng)
     inputs += [('deep', ln) for ln in g.deep_lines(3000)] + [('deep', ln) for ln in g.deep_lines(30)]
+    for depth in ([100, 330, 1000] if ctx.quick else [70, 100, 200, 300, 330, 400, 600, 950, 1000, 1500, 2400]):
+        inputs += [('gray', ln) for ln in g.deep_lines(depth)]
+    inputs += [('backtrack', ln) for ln in BACKTRACK_LINES]
+    inputs += [('backtrack', g.mutate(ln, 1)) for ln in BACKTRACK_LINES for _ in range(3)]
     terms, keep = [], []
+    deep_terms, deep_keep = [], []
     hist = collections.Counter()
     seen = set()
     for stream, data in inputs:
@@ -257,8 +262,7 @@ def section_parse(ctx) -> None:
             continue
         line, conts = units
         d = nesting_depth(data)
-        if 60 < d < 2500:
-            continue        # the exact recursion limit is not modelled
+        gray = 60 < d < 2500        # the exact recursion limit is not modelled: weaker check
         for k in range(len(conts) + 1):
             key = (line, tuple(conts[:k]))
             if key in seen:
@@ -272,8 +276,12 @@ def section_parse(ctx) -> None:
                 ctx.failure(clause, f'Commands.parse: {e[1]} escapes on {line[:120]!r}',
                             {'kind': 'parse', 'line': line.hex(), 'conts': [c.hex() for c in conts[:k]]},
                             {'kind': 'parse_escape', 'exc': e[1]})
-            terms.append(enc_parse_case(line, conts[:k], e))
-            keep.append((line, conts[:k], e))
+            if gray:
+                deep_terms.append(enc_parse_case(line, conts[:k], e))
+                deep_keep.append((line, conts[:k], e))
+            else:
+                terms.append(enc_parse_case(line, conts[:k], e))
+                keep.append((line, conts[:k], e))
             if e[0] != 'int':
                 break
     ctx.extra['parse_outcomes'] = {f'{a}/{b}': n for (a, b), n in sorted(hist.items())}
@@ -308,6 +316,10 @@ def section_parse(ctx) -> None:
                 line = pre + bytes([c]) + post
                 ctx.disagreement('class_sweep', {'line': line.hex(), 'line_text': line.decode('latin-1'),
                                                  'impl': repr(outs[c]), 'model': coq_parse(ctx, line, [])})
+        for i in ctx.run_cases('parse_deep', HEADER, 'parse_case', deep_terms, 'chk_parse_deep', shard=40)[:4]:
+            line, conts, e = deep_keep[i]
+            ctx.disagreement('parse_deep', {'line_head': line[:80].decode('latin-1'), 'len': len(line),
+                                            'impl': repr(e)})
         bad = ctx.run_cases('parse_command', HEADER, 'parse_case', terms, 'chk_parse', shard=400)
         for i in bad[:8]:
             line, conts, e = keep[i]
@@ -432,8 +444,7 @@ def enc_server_case(state: str, units: list[bytes], o: D.Outcome) -> str:
 async def run_server_stream(ctx, cases: list[tuple[str, str, bytes]], terms, keep, hist) -> None:
     pool = D.Pool()
     for i, (stream, state, data) in enumerate(cases):
-        if 60 < nesting_depth(data) < 2500:
-            continue
+        gray = 60 < nesting_depth(data) < 2500
         if too_many_hangs():
             break
         conn = await pool.get(state)
@@ -448,7 +459,7 @@ async def run_server_stream(ctx, cases: list[tuple[str, str, bytes]], terms, kee
         good = monitor(ctx, 'line', state, data, o, history=list(pool.history))
         if o.stalled or o.other_ok is False:
             pool.dead = True        # go on with a fresh environment
-        if good and o.units and not o.truncated and not o.hang:
+        if good and o.units and not o.truncated and not o.hang and not gray:
             terms.append(enc_server_case(state, o.units, o))
             keep.append((state, data, o))
         if not D.keeps_state(data, o):
@@ -519,6 +530,41 @@ async def sequence_monitor(ctx, quick: bool) -> None:
                     break
 
 
+async def eof_monitor(ctx) -> None:
+    """The client disappears inside a continuation: the connection just ends —
+    no [SERVERBUG], no escaped exception."""
+    from ..pymap_env import DictEnv
+    env = await DictEnv().start()
+    for state, first, more in (('na', b'e1 AUTHENTICATE PLAIN\r\n', b''), ('na', b'e2 AUTHENTICATE LOGIN\r\n', b'dGVzdHVzZXI=\r\n'),
+                               ('sel', b'e3 IDLE\r\n', b''), ('sel', b'e4 IDLE\r\n', b'DON'),
+                               ('auth', b'e5 APPEND INBOX {10}\r\n', b'abc'), ('na', b'e6 LOGIN {5}\r\n', b''),
+                               ('auth', b'e7 APPEND INBOX {10+}\r\nabc', b''), ('na', b'e8 NOO', b'')):
+        conn = D.keep(await (env.connect() if state == 'na' else env.login()))
+        if state == 'sel':
+            await conn.send(b's SELECT INBOX\r\n')
+        out = b''
+        data = first
+        if first.endswith(b'\n'):
+            chunk, stalled = await D.send_step(conn, first)
+            out += chunk
+            if more.endswith(b'\n'):
+                chunk, stalled = await D.send_step(conn, more)
+                out += chunk
+                more = b''
+        else:
+            more = first + more
+        if more:
+            conn.feed_nowait(more)
+        out += await conn.send_eof()
+        for _ in range(3):
+            await asyncio.sleep(0)
+        ctx.count(('eof', first, more))
+        exc = type(conn.exc).__name__ if conn.exc else None
+        if b'[SERVERBUG]' in out or exc or not conn.closed:
+            ctx.failure('no_internal_error', f'end of input after {data!r}: {out[-120:]!r} exc={exc} closed={conn.closed}',
+                        {'kind': 'eof', 'state': state, 'data': (first + more).hex()}, {'kind': 'eof_in_continuation', 'exc': exc})
+
+
 def section_server(ctx) -> None:
     rng = ctx.rng
     g = Gen(rng)
@@ -528,8 +574,12 @@ def section_server(ctx) -> None:
         for _ in range(int(n * share)):
             state, data = pick_case(g, rng, stream)
             cases.append((stream, state, data))
-    for ln in g.deep_lines(3000):
-        cases.append(('deep', 'sel', ln))
+    for depth in ([3000, 330] if ctx.quick else [3000, 100, 330, 600, 1000]):
+        for ln in g.deep_lines(depth):
+            cases.append(('deep', 'sel', ln))
+    for ln in BACKTRACK_LINES:
+        cases.append(('backtrack', 'sel', ln))
+        cases.append(('backtrack', 'auth', ln))
     # literal data that ends like a literal+ marker (readline must not glue it)
     for payload in (b'x{9+}', b'{3+}', b'abc {5+}', b'{1+}\r\n{2+}'):
         cases.append(('glue', 'auth', b'g1 APPEND INBOX {%d+}\r\n' % len(payload) + payload + b'\r\n'))
@@ -549,13 +599,14 @@ def section_server(ctx) -> None:
     D.run_all(run_server_stream(ctx, cases, terms, keep, hist))
     D.run_all(bad_limit_monitor(ctx), timeout=300)
     D.run_all(sequence_monitor(ctx, ctx.quick), timeout=600)
+    D.run_all(eof_monitor(ctx), timeout=300)
     ctx.extra['server_outcomes'] = {'/'.join(k): v for k, v in sorted(hist.items())}
     ctx.extra['server_wall_s'] = round(time.time() - t0, 1)
     if keep:
         ctx.sample({'server_case': [keep[-1][0], keep[-1][1][:120].decode('latin-1'), keep[-1][2].cls().__repr__()]})
     # every continuation request is justified by a synchronizing literal of the data sent
     for state, data, o in keep:
-        if o.tagged is not None and o.tagged[1] == b'BAD':
+        if True:
             syncs = sum(1 for u in o.units if D.sync_literal_length(u) is not None)
             lit_conts = sum(1 for t in o.cont_texts if t == b'Literal string')
             if lit_conts > syncs:
@@ -606,18 +657,34 @@ def stored_kind(att: bytes, o: D.Outcome) -> str | None:
     return None
 
 
-async def run_stored(ctx, messages: list[bytes], hist) -> None:
-    from ..pymap_env import DictEnv
+async def run_stored(ctx, messages: list[bytes], hist, maildir: bool = False) -> None:
+    from ..pymap_env import DictEnv, MaildirEnv
     for m in messages:
-        env = await DictEnv().start()
+        env = await (MaildirEnv('++').start() if maildir else DictEnv().start())
+        try:
+            await _stored_one(ctx, env, m, hist, maildir)
+        finally:
+            env.close()
+
+
+async def _stored_one(ctx, env, m: bytes, hist, maildir: bool) -> None:
+    if True:
         conn = D.keep(await env.login())
         other = D.keep(await env.login())
         data = b'a APPEND INBOX {%d+}\r\n' % len(m) + m + b'\r\n'
         o = await D.feed(conn, data, other, probe_other=True)
         ctx.count(('stored-append', m))
         hist['append ' + (o.tagged[1].decode() if o.tagged else 'none')] += 1
-        if not monitor(ctx, 'stored_append', 'auth', data, o) or o.tagged is None or o.tagged[1] != b'OK':
-            continue
+        if not monitor(ctx, 'stored_append' + ('_maildir' if maildir else ''), 'auth', data, o) \
+                or o.tagged is None or o.tagged[1] != b'OK':
+            return
+        if maildir:
+            # the stored bytes come back unchanged
+            await conn.send(b's SELECT INBOX\r\n')
+            r = await conn.send(b'v FETCH * (BODY.PEEK[])\r\n')
+            if m not in r:
+                ctx.failure('no_internal_error', f'maildir: APPENDed bytes are not fetched back verbatim: {m[:80]!r}',
+                            {'kind': 'stored_maildir', 'message': m.hex()}, {'kind': 'maildir_not_verbatim'})
         # a message nested in a message/rfc822 part goes through the same code
         for atts, mk in ((FETCH_ATTS, lambda a: b'f FETCH * (' + a + b')\r\n'),
                          (SEARCH_KEYS, lambda a: b'f SEARCH ' + a + b'\r\n')):
@@ -655,6 +722,13 @@ def section_stored(ctx) -> None:
         msgs = must + msgs[::5] + msgs[1::11]
     hist = collections.Counter()
     D.run_all(run_stored(ctx, msgs, hist))
+    # the maildir backend, low volume: 8-bit and multipart content through APPEND, FETCH, SEARCH
+    md = [m for m in ADVERSARIAL_MESSAGES if any(b >= 0x80 for b in m) or b'multipart' in m]
+    md += [b'Content-Type: multipart/alternative; boundary="q q"\r\n\r\n. \xff\xfe -\r\ncaf\xc3\xa9 >From x\r\n--q q--\r\n',
+           b'Subject: x\r\n\r\nFrom here\r\n>From there\r\nbody \xe9\r\n']
+    hist_md = collections.Counter()
+    D.run_all(run_stored(ctx, md[::3] if ctx.quick else md, hist_md, maildir=True))
+    ctx.extra['stored_outcomes_maildir'] = dict(hist_md)
     ctx.extra['stored_outcomes'] = dict(hist)
     ctx.extra['stored_messages'] = len(msgs)
 
@@ -768,7 +842,112 @@ def section_sieve(ctx) -> None:
     ctx.extra['sieve_outcomes'] = dict(hist)
 
 
-SECTIONS = [section_utf7, section_parse, section_server, section_stored, section_sieve]
+# ---------------------------------------------------------------------- framing
+class _StreamReader:
+    """A finished client stream as asyncio.StreamReader would present it."""
+
+    def __init__(self, data: bytes) -> None:
+        self.buf = bytearray(data)
+
+    async def readline(self) -> bytes:
+        i = self.buf.find(b'\n')
+        end = len(self.buf) if i < 0 else i + 1
+        ret = bytes(self.buf[:end])
+        del self.buf[:end]
+        return ret
+
+    async def readexactly(self, n: int) -> bytes:
+        if len(self.buf) < n:
+            partial = bytes(self.buf)
+            self.buf.clear()
+            raise asyncio.IncompleteReadError(partial, n)
+        ret = bytes(self.buf[:n])
+        del self.buf[:n]
+        return ret
+
+    def write(self, data) -> None:
+        pass
+
+    async def drain(self) -> None:
+        pass
+
+    def close(self) -> None:
+        pass
+
+    def get_extra_info(self, name, default=None):
+        return default
+
+
+async def impl_frames(cases):
+    """IMAPConnection.read_continuation / readline and ManageSieve _read_data
+    on finished streams -> (unit, rest) or None (EOFError)."""
+    from proxyprotocol.sock import SocketInfoLocal
+    from pymap.imap import IMAPConnection
+    from pymap.sieve.manage import ManageSieveConnection
+    from ..pymap_env import DictEnv
+    env = await DictEnv().start()
+    out = []
+    for kind, need, stream in cases:
+        rd = _StreamReader(stream)
+        try:
+            if kind == 'imap':
+                conn = IMAPConnection(env.config.commands, env.config, rd, rd, SocketInfoLocal(rd))
+                unit = bytes(await conn.read_continuation(need)) if need else bytes(await conn.readline())
+            else:
+                conn = ManageSieveConnection(env.backend.login, env.config, rd, rd, SocketInfoLocal(rd))
+                unit = bytes(await conn._read_data())
+            out.append((unit, bytes(rd.buf)))
+        except EOFError:
+            out.append(None)
+        except D.Hang:
+            out.append('hang')
+        except BaseException as e:  # noqa
+            out.append('exc:' + type(e).__name__)
+    return out
+
+
+def section_frame(ctx) -> None:
+    rng = ctx.rng
+    g = Gen(rng)
+    streams: list[tuple[str, int, bytes]] = []
+    pieces = [b'a NOOP\r\n', b'x {3+}\r\nabc y\r\n', b'{2+}\nzz\n', b'p {5+}\r\nx{9+}\r\n', b'q {0+}\r\n\r\n',
+              b'{1+}\r\n{2+}\r\n', b'r {3}\r\n', b'abc rest\r\n', b't {2+}\r\r\nab\r\n',
+              b'{+}\r\n', b'1+}\r\n', b'u {12{3+}\r\nabc\r\n', b'v {9+}\r\nshort', b'no newline', b'\n', b'w {1+} \r\n']
+    big = b's {' + b'1' * 4301 + b'+}\r\n'
+    for tail in (b'', b'abc\r\n', b'x {1+}\r\ny\r\n'):
+        streams.append(('imap', 0, big + tail))
+        streams.append(('sieve', 0, big + tail))
+    for _ in range(ctx.scale(200, 3000)):
+        data = b''.join(rng.choice(pieces) for _ in range(rng.randint(1, 4)))
+        if rng.random() < 0.4:
+            data = g.mutate(data, 1)
+        kind = rng.choice(['imap', 'imap', 'sieve'])
+        need = rng.choice([0, 0, 0, 1, 3, 5, 40]) if kind == 'imap' else 0
+        streams.append((kind, need, data))
+    for _ in range(ctx.scale(60, 1500)):
+        streams.append(('imap', 0, g.grammar_line() + rng.choice(pieces)))
+    with D.Watch(cpu=20, wall=120):
+        results = D.run_all(impl_frames(streams), timeout=300)
+    terms, keep = [], []
+    for (kind, need, data), r in zip(streams, results):
+        ctx.count(('frame', kind, need, data), nontrivial=r is not None)
+        if isinstance(r, str):
+            ctx.failure('no_internal_error' if r != 'hang' else 'no_hang', f'framing of {data[:100]!r}: {r}',
+                        {'kind': 'frame', 'reader': kind, 'need': need, 'data': data.hex()}, {'kind': 'frame_escape'})
+            continue
+        exp = 'None' if r is None else f'(Some {T.pair(T.bytes_(r[0]), T.bytes_(r[1]))})'
+        terms.append(T.pair(T.N(need), T.bytes_(data), exp))
+        keep.append((kind, need, data, r))
+
+    def evaluate():
+        for i in ctx.run_cases('framing', HEADER, 'N * bytes * option (bytes * bytes)', terms, 'chk_frame', shard=600)[:5]:
+            kind, need, data, r = keep[i]
+            ctx.disagreement('framing', {'reader': kind, 'need': need, 'data': data.hex(),
+                                         'data_text': data[:200].decode('latin-1'), 'impl': repr(r)[:300]})
+    later(evaluate)
+
+
+SECTIONS = [section_utf7, section_parse, section_frame, section_server, section_stored, section_sieve]
 
 
 def run(ctx) -> None:
@@ -791,7 +970,7 @@ def run(ctx) -> None:
         'super-linear CPU time of the regex engine cannot be exhibited by the model; it is bounded only by the '
         f'watchdog ({D.CPU_BUDGET} s CPU per step)',
     ]
-    ctx.check_proofs(['Cmd/Check'])
+    ctx.check_proofs(['Cmd/Check', 'Cmd/Framing'])
     import os
     only = os.environ.get('C06_SECTIONS')      # development aid: run a subset
     for sec in SECTIONS:
